@@ -70,8 +70,53 @@ fn read_seqs(s: &str) -> Vec<Vec<u8>> {
     if s == "-" { vec![] } else { s.split(',').map(|r| digits(r.split(':').next().unwrap())).collect() }
 }
 
+/// canonical partition of a graph: every node as the sorted list of its canonical k-mers with its payload; nodes sorted
+fn canon_partition<K: Kmer>(g: &DebruijnGraph<K, u32>, stranded: bool) -> Vec<(Vec<Vec<u8>>, u32)> {
+    let k = K::k();
+    let mut out: Vec<(Vec<Vec<u8>>, u32)> = (0..g.len()).map(|i| {
+        let n = g.get_node(i);
+        let s = n.sequence().bytes();
+        let mut kms: Vec<Vec<u8>> = (0..s.len() + 1 - k).map(|j| { let w = s[j..j + k].to_vec(); let r = rc_of(&w); if !stranded && r < w { r } else { w } }).collect();
+        kms.sort();
+        (kms, *n.data())
+    }).collect();
+    out.sort();
+    out
+}
+
+/// `bigrep <K> <P> <stranded> <thr> <unit> <reps> <seed>`: one read `flank unit^reps flank` whose repeat is longer than 2^16 bases
+/// (one minimizer governs the whole run), a second read across one flank; sharded against direct assembly, implementation against
+/// implementation - the statement of C04 itself
+fn bigrep_kp<K: Kmer + Send + Sync, P: Kmer>(stranded: bool, thr: usize, unit: &[u8], reps: usize, seed: u64) -> String {
+    let mut rng = Rng::new(seed);
+    let mut r: Vec<u8> = (0..40).map(|_| rng.below(4) as u8).collect();
+    for _ in 0..reps { r.extend_from_slice(unit); }
+    let tail: Vec<u8> = (0..40).map(|_| rng.below(4) as u8).collect();
+    r.extend_from_slice(&tail);
+    let mut r2: Vec<u8> = unit.iter().cycle().take(2 * K::k()).copied().collect();
+    r2.extend_from_slice(&tail);
+    let reads = vec![r, r2];
+    let (_, g) = sharded::<K, P>(&reads, None, stranded, thr, false);
+    let (_, d) = pipeline::<K>(&reads, stranded, thr);
+    let (a, b) = (canon_partition(&g, stranded), canon_partition(&d, stranded));
+    if a == b { format!("same=1 nodes={} bases={}", a.len(), reads[0].len()) } else {
+        let diff: Vec<String> = a.iter().filter(|x| !b.contains(x)).chain(b.iter().filter(|x| !a.contains(x))).take(4)
+            .map(|(kms, dat)| format!("{}x{}:{}", show_digits(&kms[0]), kms.len(), dat)).collect();
+        format!("same=0 sharded-nodes={} direct-nodes={} differing={}", a.len(), b.len(), diff.join(","))
+    }
+}
+
+fn bigrep_k<K: Kmer + Send + Sync>(p: usize, stranded: bool, thr: usize, unit: &[u8], reps: usize, seed: u64) -> String {
+    with_p_type!(p, bigrep_kp, K, stranded, thr, unit, reps, seed)
+}
+
 /// `sharded <K> <P> <perm> <stranded> <thr> <prune> <reads>`
 pub fn exec04(a: &[&str]) -> String {
+    if a[0] == "bigrep" {
+        let k: usize = a[1].parse().unwrap();
+        let unit = digits(a[5]);
+        return with_graph_kmer!(k, bigrep_k, a[2].parse().unwrap(), a[3] == "1", a[4].parse().unwrap(), &unit, a[6].parse().unwrap(), a[7].parse().unwrap());
+    }
     let k: usize = a[1].parse().unwrap();
     let p: usize = a[2].parse().unwrap();
     let perm: Option<Vec<usize>> = if a[3] == "default" { None } else { Some(nat_list(a[3])) };
@@ -270,6 +315,14 @@ pub fn exec19(a: &[&str]) -> String {
 }
 
 pub fn gen04(rng: &mut Rng, tier: &str) -> String {
+    if rng.chance(1, if tier == "thorough" { 300 } else { 500 }) {
+        // a tandem repeat / homopolymer longer than 2^16 bases: one minimizer governs more bases than a 16-bit length can tell
+        let (k, p) = *rng.pick(&[(12usize, 4usize), (16, 5), (31, 6), (32, 8)]);
+        let ul = 1 + rng.below(3);
+        let unit: Vec<u8> = (0..ul).map(|_| rng.below(4) as u8).collect();
+        let total = *rng.pick(&[65536usize, 65600, 70000, 131100]);
+        return format!("C04 bigrep {} {} {} {} {} {} {}", k, p, rng.below(2), *rng.pick(&[1usize, 1, 2]), show_digits(&unit), total / ul + 1, rng.next() % 100000);
+    }
     let (k, p) = if tier == "thorough" { *rng.pick(&[(5usize, 2usize), (6, 3), (8, 3), (16, 5), (32, 6), (31, 6), (12, 4), (48, 8), (4, 2), (6, 2)]) }
                  else { *rng.pick(&[(5usize, 2usize), (5, 2), (6, 3), (6, 2), (8, 3), (16, 5), (4, 2)]) };
     let reads = gen_reads(rng, k, if tier == "thorough" { 16 } else { 6 }, if tier == "thorough" { 200 } else { 60 });
